@@ -75,6 +75,7 @@ func runC09(rc *RunCtx) {
 	var cmds []*hraft.Log
 	chunkEntries := 0
 	pi := 0
+	match := rr.Matcher()
 	for _, l := range rr.Logs {
 		if isChunk, last := raft.VerifChunk(l); isChunk {
 			s.Probe("chunk_entries")
@@ -86,8 +87,11 @@ func runC09(rc *RunCtx) {
 		}
 		if l.Type == hraft.LogCommand {
 			kind, _, _, start := raft.VerifLogKind(l)
-			p := rr.Proposals[pi]
+			p := match(l)
 			pi++
+			if p == nil {
+				panic(fmt.Sprintf("raft log entry %d (%s) matches no outstanding proposal", l.Index, kind))
+			}
 			if !p.done {
 				h.Close()
 				return // truncated leader run
